@@ -172,6 +172,9 @@ def run(ctx: Context) -> None:
         from .c06 import closed_store_paired
 
         closed_store_paired(ctx, "C04.R6", tree, N)
+        from .c06 import _r6 as closed_predicates
+
+        closed_predicates(ctx, tree, N, "C04.R6")
 
 
 def _one_stream(ctx: Context, tree: str, N: Names) -> None:
